@@ -8,8 +8,9 @@
         -> "TREE <tree> | ERRS <n>"                      (tree builder on recorded tokens)
    SER <tree>         ( prefix ns local n (prefix ns local value)* kids ) | X s | C s | P t d | D n p s
         -> "SER <code points, decimal> | TOKS <tokens the items denote> | TREE <tree built from them> | ERRS n
-            | FLAGS cons= adequate= roundtrip= hyps="   (forest_cons, adequate, roundtrip_tok,
-               rt_hyps = the hypotheses of C17_roundtrip_partial)
+            | FLAGS cons= adequate= roundtrip= hyps= lex="   (forest_cons, adequate, roundtrip_tok,
+               rt_hyps = the hypotheses of C17_roundtrip_partial, lex_hyps = the character conditions of
+               C17_roundtrip_through_tokenizer_partial)
    LEX <t|a> <string> -> lex_text / lex_attr_value of escape(string) ++ terminator  *)
 
 let dec s : n list =
@@ -142,11 +143,12 @@ let () =
           let items = ser_doc nodes in
           let toks = List.map (fun i -> tokenize (item_rtoken i)) items in
           let b x = if x then "1" else "0" in
-          Printf.sprintf "SER %s | TOKS %s | %s | FLAGS cons=%s adequate=%s roundtrip=%s hyps=%s"
+          Printf.sprintf "SER %s | TOKS %s | %s | FLAGS cons=%s adequate=%s roundtrip=%s hyps=%s lex=%s"
             (String.concat " " (List.map (fun c -> string_of_int (int_of_n c)) (render items)))
             (String.concat " " (List.map show_token toks))
             (show_state (run (toks @ [TEof])))
             (b (forest_cons nodes)) (b (adequate items [])) (b (roundtrip_tok nodes)) (b (rt_hyps nodes))
+            (b (lex_hyps nodes))
         | ["LEX"; m; s] ->
           let s = dec s in
           let attr_mode = (m = "a") in
